@@ -328,6 +328,40 @@ def version_strings():
 ODD = ["abc", "", "2.x", "x.2", "1,5", None, 2.1, 1.5, "v", "2.2.2.2"]
 
 
+# a bare major number: which version it means is UNSPEC (major.0 or the 1.4 fallback), but it is a value a caller or a
+# node can supply, so neither the constructor nor the node's version handling may raise on it
+BARE = ["2", 2, "3", 3, "1", 0, "0"]
+
+
+def check_bare(v, viols, stats):
+    from mysensors import Gateway
+    from mysensors.const import get_const
+    from mysensors.sensor import Sensor
+
+    stats["bare_major_values"] += 1
+    rep = {"kind": "input", "check": PROP, "case": ["version", "bare", v if isinstance(v, str) else f"int:{v}"]}
+    allowed = {"1.4", version_floor(f"{v}.0")}
+    try:
+        gw = Gateway(protocol_version=v)
+        got = gw.const.__name__.rsplit("_", 1)[1]
+        if f"{got[0]}.{got[1]}" not in allowed:
+            viols.append(Violation(PROP, f"gateway-version-floor|bare-major|got-{got[0]}.{got[1]}", f"protocol_version={v!r} selects {got}", rep))
+    except Exception as exc:  # pylint: disable=broad-except
+        viols.append(Violation(PROP, f"version-raises|{type(exc).__name__}", f"Gateway(protocol_version={v!r}) raised {type(exc).__name__}: {exc}", rep))
+    try:
+        node = Sensor(1)
+        node.protocol_version = v
+        get_const(node.protocol_version)
+        try:
+            node.validate_child_state(0, 2, "1")
+        except ValueError:
+            pass
+    except Exception as exc:  # pylint: disable=broad-except
+        if type(exc).__module__.startswith("voluptuous"):
+            return
+        viols.append(Violation(PROP, f"node-version-raises|{type(exc).__name__}", f"a node presenting version {v!r}: {type(exc).__name__}: {exc}", rep))
+
+
 def check_versions(chunk):
     """One process per construction order: the const-module cache is a lazily built global."""
     logging.disable(logging.CRITICAL)
@@ -339,6 +373,9 @@ def check_versions(chunk):
     for order, versions in chunk:
         mysensors.const.LOADED_CONST.clear()
         for v in versions:
+            if order == "bare":
+                check_bare(v, viols, stats)
+                continue
             stats["version_strings"] += 1
             text = v if isinstance(v, str) else (repr(v) if v is not None else None)
             want = version_floor(text) if isinstance(text, str) else "1.4"
@@ -403,12 +440,12 @@ def run(tier):
     v1, s1, m1 = e5.pmap(check_options, cases)
     v1 += readme_examples()
     vs = version_strings()
-    orders = [("ascending", vs + ODD), ("descending", list(reversed(vs)) + ODD), ("odd-first", ODD + vs[::7])]
-    v2, s2, m2 = e5.pmap(check_versions, orders, parts=3)
+    orders = [("ascending", vs + ODD), ("descending", list(reversed(vs)) + ODD), ("odd-first", ODD + vs[::7]), ("bare", BARE)]
+    v2, s2, m2 = e5.pmap(check_versions, orders, parts=4)
     report.add_all(v1 + v2)
     stats = s1 + s2
     cov = report.coverage
-    cov["evaluations"] = stats["option_subsets"] + stats["version_strings"] + 2
+    cov["evaluations"] = stats["option_subsets"] + stats["version_strings"] + stats["bare_major_values"] + 2
     cov["distinct_nontrivial"] = len(cases) + len(vs) + len(ODD)
     cov["rule"] = (
         "(a) six gateway classes x all 2^7 subsets of their documented keyword options x two value sets, each constructed and "
@@ -416,12 +453,12 @@ def run(tier):
         "reconnect_timeout, arguments reaching serial_for_url / create_connection and the retry sleep of the real connect loop, "
         "MQTT prefixes and retain), plus the README keyword examples verbatim; (b) every major.minor[.patch] with major 0..3, "
         "minor 0..12, patch absent or 0..3 plus odd values, as gateway version and as node version, in ascending, descending "
-        "and odd-first construction order; oracle = numeric floor over the supported versions"
+        "and odd-first construction order; oracle = numeric floor over the supported versions; bare major numbers (str and int) must be accepted without raising"
     )
     cov["exhaustive"] = True
     cov["counts"] = dict(stats)
     cov["samples"] = (m1 + m2)[:8]
-    report.assumptions = ["positional use of the event callback is outside the quantifier (keyword options)", "effect of 'timeout' on the asyncio kinds is observed as transport.timeout only", "integers without a minor part (2) are UNSPEC and not in the grid"]
+    report.assumptions = ["positional use of the event callback is outside the quantifier (keyword options)", "effect of 'timeout' on the asyncio kinds is observed as transport.timeout only", "which version a bare major number (2, '2') selects is UNSPEC (major.0 or the 1.4 fallback are both accepted); it must not raise"]
     return report.finish()
 
 
@@ -434,7 +471,9 @@ def replay(data):
         viols = readme_examples()
     else:
         v = case[2]
-        if isinstance(v, str) and v not in ODD and parse_version(v) is None:
+        if case[1] == "bare":
+            v = int(v[4:]) if v.startswith("int:") else v
+        elif isinstance(v, str) and v not in ODD and parse_version(v) is None:
             try:
                 v = float(v)
             except ValueError:
